@@ -453,6 +453,10 @@ def assemble(unit_name, out_path=None):
                 # which other functions happen to be in the unit (stability against unrelated edits)
                 text = "#[verifier::spinoff_prover]\n" + text
                 ls = [0] + list(ls)
+                if sp.get("unproved_termination"):
+                    # partial correctness only: termination of this (recursive) function is NOT verified -- listed in the evidence
+                    text = "#[verifier::exec_allows_no_decreases_clause]\n" + text
+                    ls = [0] + list(ls)
             start_gen = len(out_lines) + 1
             emit(text, lambda j, idx=idx, ls=ls, f=sp["file"]: {"kind": "extract", "item": idx, "src_file": f, "src_line": (ls[j] if j < len(ls) else 0)})
             extracted.append({
@@ -486,6 +490,7 @@ TRUST_PATTERNS = [
     ("admit", re.compile(r"\badmit\s*\(")),
     ("assume", re.compile(r"\bassume\s*\(")),
     ("uninterp", re.compile(r"\buninterp\s+spec\s+fn\b")),
+    ("termination not verified (exec_allows_no_decreases_clause)", re.compile(r"#\[verifier::exec_allows_no_decreases_clause\]")),
 ]
 
 
@@ -499,7 +504,7 @@ def trusted_scan(gen_path):
             if pat.search(code):
                 # find the next declaration line
                 decl = code.strip()
-                if name in ("external_body", "external_type_specification", "external_trait_specification"):
+                if name in ("external_body", "external_type_specification", "external_trait_specification") or name.startswith("termination"):
                     for j in range(i + 1, min(i + 6, len(lines))):
                         t = lines[j].strip()
                         if t and not t.startswith("#[") and not t.startswith("//"):
